@@ -4,7 +4,8 @@
    require; the driver skips them otherwise): the observations are those of the
    reference cursor [ref_run] of BlockSeekProofs over the whole entry list, and the
    final status is OK.  Block boundaries are crossed in both directions and nothing is
-   skipped, because no data block of a built table is empty.  Compression is off. *)
+   skipped, because no data block of a built table is empty.  Any compression function that the
+   Snappy decoder inverts; table file below 4 GiB. *)
 From LCDB Require Import Base Varint Crc32c Block Trie Filter Snappy TableFormat.
 From LCDB Require Import BaseProofs VarintProofs Crc32cProofs BlockProofs BlockIterProofs BlockSeekProofs
   FilterProofs FilterBlockProofs SnappyProofs TableProofs TableBuildProofs BlockCursorProofs TableIndexProofs
